@@ -112,6 +112,7 @@ RInt(n)  == [t |-> "int", n |-> n]
 RStr(b)  == [t |-> "str", b |-> b]       \* bulk or simple string carrying exactly these bytes
 RArr(a)  == [t |-> "arr", a |-> a]       \* ordered array
 RBag(a)  == [t |-> "bag", a |-> a]       \* array whose order is unspecified
+RPairBag(a) == [t |-> "pairbag", a |-> a] \* flat array of pairs, pairs in unspecified order
 RPanic   == [t |-> "panic"]
 
 =============================================================================
